@@ -79,6 +79,8 @@ class Pipe(chan.ChannelScenario):
                 g = None
             if isinstance(seg, str) and seg.startswith("@release:"):
                 act = lambda f=seg.split(":", 1)[1]: flags.__setitem__(f, True)
+            elif isinstance(seg, str) and seg.startswith("@drain:"):
+                act = lambda sock=sock, n=seg.split(":", 1)[1]: sock.client_drain(None if n == "None" else int(n))
             elif isinstance(seg, str) and seg.startswith("@clock:"):
                 act = lambda d=float(seg.split(":", 1)[1]): setattr(W, "now", W.now + d)
             elif guard == "eof":
@@ -227,6 +229,10 @@ def scenarios(tier):
     exp_head = req(2, "POST", extra=["Expect: 100-continue", "Content-Length: 5"])
     S.append(("PE[expect after GET]", dict(pre=(req(1) + exp_head).decode("latin-1"), segments=[("hello", "after100")], workers=1, lookahead=0), 2))
     S.append(("PE[expect after GET,lookahead=1]", dict(pre=(req(1) + exp_head).decode("latin-1"), segments=[("hello", "after100")], workers=1, lookahead=1), 1 if q else 2))
+    # stray empty lines between pipelined requests, several workers
+    blank = (req(1) + b"\r\n\r\n" + req(2) + b"\r\n").decode("latin-1")
+    S.append(("P2[blank lines between,2 workers]", dict(pre=blank, workers=2, lookahead=0), 1))
+    S.append(("P2[blank lines between,2 workers,lookahead=2]", dict(pre=blank, workers=2, lookahead=2), 1))
     # output large enough to migrate through the buffer representations while partly sent
     S.append(("P2[migrating outbuf,slow client]", dict(pre=two, workers=1, lookahead=0, window=3000, drains=[4000, None], adj=dict(outbuf_overflow=12000),
               programs={"/r1": dict(body=["a" * 5000, "b" * 5000, "c" * 5000, "d" * 5000], cl=True)}), 1))
